@@ -119,6 +119,11 @@ func main() {
 			bad = append(bad, fmt.Sprintf("NEW WRITE AFTER PUBLISH in %s: %s is stored into the guarded %s at %s and, after the lock is released, written through at %s (readers under the lock see a half-initialised object; unsynchronised write)", pr.Func, pr.Var, pr.Field, pr.PublishedAt, pr.WrittenAt))
 		}
 	}
+	for _, er := range res.Esc {
+		if !er.Listed {
+			bad = append(bad, fmt.Sprintf("NEW GUARDED ESCAPE in %s: the value returned at %s aliases the object kept in the guarded %s and is used by the caller after the lock is released (return a clone)", er.Func, er.Pos, er.Field))
+		}
+	}
 	for _, ct := range res.CTA {
 		if !ct.Listed {
 			bad = append(bad, fmt.Sprintf("NEW CHECK-THEN-ACT in %s: the value of %s, obtained under %s, is tested at %s and %s is taken again at %s (two critical sections: the tested fact may no longer hold)", ct.Func, ct.Source, ct.LockName, ct.CondPos, ct.LockName, ct.ActPos))
@@ -289,6 +294,8 @@ type summary struct {
 	AddrTaken          int `json:"address_taken_sites_not_followed"`
 	PubRows            int `json:"write_after_publish_rows"`
 	UnlistedPub        int `json:"unlisted_write_after_publish_rows"`
+	EscRows            int `json:"guarded_escape_rows"`
+	UnlistedEsc        int `json:"unlisted_guarded_escape_rows"`
 	CTARows            int `json:"check_then_act_rows"`
 	UnlistedCTA        int `json:"unlisted_check_then_act_rows"`
 	ChanOpsUnderLock   int `json:"channel_ops_under_lock"`
@@ -315,6 +322,9 @@ type result struct {
 	// Pub: writes through a local variable to an object after it was stored
 	// into a guarded field and the guarding hold ended (write after publish).
 	Pub []pubOut `json:"write_after_publish"`
+	// Esc: methods that take the guard of a field themselves and return a
+	// pointer, slice or map still aliasing the guarded object (see escape.go).
+	Esc []escOut `json:"guarded_escape"`
 	// ChanOps: potentially blocking channel operations made while a lock is
 	// (possibly) held; channels are not part of the lock machine, every such
 	// site must be justified in the reviewed table.
@@ -449,6 +459,14 @@ func renderLean(r *result) string {
 			sep = ""
 		}
 		fmt.Fprintf(&b, "  ⟨%d, %d, %v⟩%s  -- %s: %s tested at %s, %s taken again at %s\n", ct.Site, ct.Lock, ct.Listed, sep, ct.Func, ct.Source, ct.CondPos, ct.LockName, ct.ActPos)
+	}
+	b.WriteString("]\n\n/-- guarded-escape rows: site, guarded field, in the reviewed baseline -/\ndef escRows : List EscRow := [\n")
+	for i, er := range r.Esc {
+		sep := ","
+		if i == len(r.Esc)-1 {
+			sep = ""
+		}
+		fmt.Fprintf(&b, "  ⟨%d, %d, %v⟩%s  -- %s returns an alias of %s at %s\n", er.Site, fieldID[er.Field], er.Listed, sep, er.Func, er.Field, er.Pos)
 	}
 	b.WriteString("]\n\n/-- a cycle of `edges ++ knownEdges` through a known edge (empty if there is none) -/\n")
 	fmt.Fprintf(&b, "def knownCycle : List Nat := %s\n", intsLean(r.KnownCycle))
